@@ -501,8 +501,44 @@ def showRes (r : Res Rat) (d : Diag) : String :=
   " margin=" ++ showOptRat (d.margin.map fun m => if ratBits m ≤ 256 then m else
       (((m * ((2 ^ 100 : Nat) : Rat)).floor : Rat) / ((2 ^ 100 : Nat) : Rat))) ++ " bits=" ++ toString d.bits ++ " dyadic=" ++ showBool d.dyad
 
+/-! ### `DiscreteDP.solve(method=…)`: the method names (ddp.py 754-770) -/
+
+inductive Method where
+  | vi | pi | mpi | lp
+deriving DecidableEq, Repr
+
+/-- the `if method in [...] / elif … / else: raise ValueError('invalid method')` chain of `solve`;
+    `none` = `ValueError` -/
+def methodOfName (s : String) : Option Method :=
+  if s = "value_iteration" ∨ s = "vi" then some .vi
+  else if s = "policy_iteration" ∨ s = "pi" then some .pi
+  else if s = "modified_policy_iteration" ∨ s = "mpi" then some .mpi
+  else if s = "linear_programming" ∨ s = "lp" then some .lp
+  else none
+
+def Method.short : Method → String
+  | .vi => "vi" | .pi => "pi" | .mpi => "mpi" | .lp => "lp"
+
+/-- wire decoding of an arbitrary method string: two hex digits per byte (ASCII) -/
+def hexToString (h : String) : Option String :=
+  let rec go : List Char → List Char → Option (List Char)
+    | [], acc => some acc.reverse
+    | [_], _ => none
+    | a :: b :: rest, acc =>
+      match hexDigit? a, hexDigit? b with
+      | some x, some y => go rest (Char.ofNat (16 * x + y) :: acc)
+      | _, _ => none
+  (go h.toList []).map String.ofList
+
 def handle (toks : List String) : String :=
   match toks with
+  | ["method", arg] =>
+    -- `method hex=<hex of the name>` -> vi | pi | mpi | lp | ERR:ValueError
+    match (kv [arg] "hex").bind hexToString with
+    | some name => match methodOfName name with
+      | some m => m.short
+      | none => "ERR:ValueError"
+    | none => "bad-op"
   | op :: r =>
     match parseProb r, kvRat r "beta" with
     | some P, some β =>
